@@ -139,7 +139,10 @@ func c13Workloads(tier string) []c13Workload {
 			Queries: []string{q("SELECT id FROM BIG WHERE 100 / (v - 50) > 0"), q("SELECT id, 7 / (k - 11) FROM BIG")}},
 		{Name: "group", Sites: "group (both phases), groupAll, Having, ListValuesForAggregateFunctions, NewViewFromGroupedRecord",
 			Queries: []string{q("SELECT k, COUNT(*), SUM(v), AVG(v), MIN(s), LISTAGG(s, ',') FROM BIG GROUP BY k HAVING COUNT(*) > 1"), q("SELECT COUNT(*), MAX(v), MEDIAN(v) FROM BIG"),
-				q("SELECT k, s, COUNT(DISTINCT v) FROM BIG GROUP BY k, s")}},
+				q("SELECT k, s, COUNT(DISTINCT v) FROM BIG GROUP BY k, s"),
+				// grouped views over a derived table, each ordered by an expression (appends to the per-group header): race-group-header
+				q("SELECT g, LISTAGG(v, ',') WITHIN GROUP (ORDER BY v * 1) FROM (SELECT id % 400 AS g, v FROM BIG) t GROUP BY g"),
+				q("SELECT k, MEDIAN(v), JSON_AGG(s) WITHIN GROUP (ORDER BY id * -1) FROM (SELECT id, k, v, s FROM BIG WHERE v > 3) t GROUP BY k")}},
 		{Name: "group-error", Sites: "group with an error raised in a group key",
 			Queries: []string{q("SELECT 10 / (v - 50) AS g, COUNT(*) FROM BIG GROUP BY 10 / (v - 50)")}},
 		{Name: "order-distinct", Sites: "OrderBy sort values, GenerateComparisonKeys (DISTINCT, set operators)",
@@ -165,7 +168,10 @@ func c13Workloads(tier string) []c13Workload {
 			Queries: []string{"SELECT id, k, v, w FROM `l3000.ltsv` WHERE k < 5", "SELECT COUNT(*), SUM(k) FROM `j3000.jsonl`", "SELECT id, w FROM `j3000.jsonl` WHERE v IS NULL"}},
 		{Name: "lateral-subquery", Sites: "LATERAL join (EvaluateSequentially in loadView), correlated subqueries (nested task managers sharing the goroutine budget)",
 			Queries: []string{q("SELECT a.id, x.c FROM MID a CROSS JOIN LATERAL (SELECT COUNT(*) AS c FROM t300 b WHERE b.k = a.k AND b.v < a.v) x"),
-				q("SELECT a.id FROM MID a WHERE EXISTS (SELECT 1 FROM t300 b WHERE b.v = a.v AND b.k = a.k)"), q("SELECT id, (SELECT MAX(b.v) FROM t300 b WHERE b.k = a.k) AS m FROM MID a WHERE v IN (SELECT v FROM t300 WHERE k = 3)")}},
+				q("SELECT a.id FROM MID a WHERE EXISTS (SELECT 1 FROM t300 b WHERE b.v = a.v AND b.k = a.k)"), q("SELECT id, (SELECT MAX(b.v) FROM t300 b WHERE b.k = a.k) AS m FROM MID a WHERE v IN (SELECT v FROM t300 WHERE k = 3)"),
+				// a derived table inside a correlated subquery: every goroutine loads "(SELECT * FROM t300) s" (race-derived-fileinfo)
+				q("SELECT id, (SELECT COUNT(*) FROM (SELECT * FROM t300) s WHERE s.k = a.k) AS c FROM MID a"),
+				q("SELECT a.id FROM MID a WHERE a.v IN (SELECT s.v FROM (SELECT v, k FROM t300 WHERE k < 12) s WHERE s.k = a.k)")}},
 		{Name: "subquery-outer-refs", Sites: "correlated subqueries whose goroutines share the field-index cache of the outer record (reference_scope.go)",
 			Queries: []string{"SELECT id, (SELECT COUNT(*) FROM t300 b WHERE b.v = a.v OR b.k = a.k OR b.id = a.id OR b.s = a.s) AS c FROM t300 a WHERE id < 60"}},
 		{Name: "functions", Sites: "built-in functions with process-wide state evaluated in worker goroutines: RAND (shared generator), regular expression and datetime-format caches, NOW, JSON_VALUE, user-defined scalar functions",
